@@ -429,13 +429,38 @@ func (e *Env) localByName(name string) (SVal, bool) {
 	}
 	// 2. address-taken local (Alloc with that comment)
 	var alloc *ssa.Alloc
-	for _, b := range fn.Blocks {
-		for _, in := range b.Instrs {
-			if a, ok := in.(*ssa.Alloc); ok && a.Comment == name {
-				if alloc == nil {
-					alloc = a
+	{
+		// several source variables may share a name: prefer the allocation whose block dominates the current
+		// point (deepest first); fall back to the first one
+		cb := e.block
+		if cb == nil {
+			cb = vc.curBlock
+		}
+		bestD := -1
+		var first *ssa.Alloc
+		for _, b := range fn.Blocks {
+			for _, in := range b.Instrs {
+				if a, ok := in.(*ssa.Alloc); ok && a.Comment == name {
+					if first == nil {
+						first = a
+					}
+					if _, has := vc.locs[a]; !has {
+						continue
+					}
+					if cb != nil && a.Block() != nil && (a.Block() == cb || a.Block().Dominates(cb)) {
+						d := 0
+						for x := a.Block(); x != nil; x = x.Idom() {
+							d++
+						}
+						if d > bestD {
+							bestD, alloc = d, a
+						}
+					}
 				}
 			}
+		}
+		if alloc == nil && cb == nil {
+			alloc = first
 		}
 	}
 	if alloc != nil {
